@@ -272,26 +272,31 @@ def entry_one(rx, db, res):
 
 
 def judge_impute(entry, out, db, res, where):
+    """judged on fragment multisets (RDKit components), not on how the text was assembled"""
     res.ev()
     key = "products" if entry["Unbalance"] == "Products" else "reactants"
     other = "reactants" if key == "products" else "products"
+    w = dict(case={"reaction": entry.get("reaction")}, where=where)
+    f_old, f_oth = oracle.frags(entry[key]), oracle.frags(entry[other])
     if "new_reaction" not in out:
-        if out.get(key) != entry[key] or out.get(other) != entry[other]:
-            res.viol("imputer_changed_sides_without_solution", case={"reaction": entry.get("reaction")}, where=where)
+        if oracle.frags(out.get(key) or "") != f_old or oracle.frags(out.get(other) or "") != f_oth:
+            res.viol("imputer_changed_sides_without_solution", **w)
         return
     res.count("single_impute_with_solution:" + where)
-    old, new = entry[key], out[key]
-    if out.get(other) != entry[other] or not new.startswith(old + "."):
-        res.viol("imputer_did_not_append", case={"reaction": entry.get("reaction")}, old=old, new=new, where=where)
+    f_new, f_oth_new = oracle.frags(out.get(key) or ""), oracle.frags(out.get(other) or "")
+    if f_new is None or f_oth_new is None:
+        res.viol("imputer_added_unparsable_text", new=out.get(key), **w)
         return
-    if out["new_reaction"] != out["reactants"] + ">>" + out["products"]:
-        res.viol("imputer_new_reaction_inconsistent", case={"reaction": entry.get("reaction")}, where=where)
-    added = oracle.frags(new[len(old) + 1:])
-    dbset = Counter()
+    nr = oracle.rfrags(out["new_reaction"])
+    sides = (f_new, f_oth_new) if key == "reactants" else (f_oth_new, f_new)
+    if nr is None or (nr[0], nr[1]) != sides:
+        res.viol("imputer_new_reaction_inconsistent", new_reaction=out["new_reaction"], **w)
+    delta = oracle.msub(f_new, f_old)
+    if f_oth_new != f_oth or any(v < 0 for v in delta.values()) or not delta:
+        res.viol("imputer_did_not_append", old=entry[key], new=out.get(key), **w)
+        return
+    added = delta
     known = {oracle.frags(e["smiles"]) and next(iter(oracle.frags(e["smiles"]))) for e in db}
-    if added is None:
-        res.viol("imputer_added_unparsable_text", case={"reaction": entry.get("reaction")}, new=new, where=where)
-        return
     outside = [k for k in added if k not in known]
     if outside:
         res.viol("completion_uses_compound_outside_database", case={"reaction": entry.get("reaction")},
